@@ -95,6 +95,76 @@ Theorem C04_split_input_noop : forall kd n w fs r k,
 Proof. exact split_input_noop. Qed.
 Print Assumptions C04_split_input_noop.
 
+(* Repeated run: whenever every shank folder exists (NP2.4) / the lf file
+   exists as .bin or .cbin (NP2.1) — in particular after a complete run, next
+   theorem — a run without overwrite, whatever its options, crash index or
+   damage request, executes no step, returns status 0 with already_exists set
+   and leaves every path as it was. *)
+Theorem C04_rerun_noop : forall kd n w fs r,
+  (kd = NP24 /\ (1 <= n)%nat /\ (forall k, (k < n)%nat -> fs (PDir k) <> Absent)) \/
+  (kd = NP21 /\ (fs (PFile Lf21 FBin) <> Absent \/ fs (PFile Lf21 FCbin) <> Absent)) ->
+  r_ow r = false -> (r_target r = TBin \/ r_target r = TCbin) ->
+  input_state kd n fs (r_target r) = Present ->
+  run_once kd n w fs r = mkOut fs (Status 0) false 1 false [].
+Proof.
+  intros kd n w fs r [[-> [Hn Hd]] | [-> Hd]] How Ht Hin.
+  - exact (rerun_noop24 n w fs r Hn Hd How Ht Hin).
+  - exact (rerun_noop21 n w fs r Hd How Ht Hin).
+Qed.
+Print Assumptions C04_rerun_noop.
+
+(* After a complete NP2.4 run (status 1, from any directory, any options) every
+   shank folder exists — so the next run without overwrite is the no-op above. *)
+Theorem C04_complete_run_then_rerun_noop : forall n w fs r r2,
+  (1 <= n)%nat -> (r_target r = TBin \/ r_target r = TCbin) ->
+  out_outcome (run_once NP24 n w fs r) = Status 1 ->
+  let fs1 := out_fs (run_once NP24 n w fs r) in
+  r_ow r2 = false -> (r_target r2 = TBin \/ r_target r2 = TCbin) ->
+  input_state NP24 n fs1 (r_target r2) = Present ->
+  run_once NP24 n w fs1 r2 = mkOut fs1 (Status 0) false 1 false [].
+Proof.
+  intros n w fs r r2 Hn Ht H1 fs1 How Ht2 Hin.
+  apply rerun_noop24; auto. intros k Hk. unfold fs1.
+  rewrite (complete24_dirs n w fs r Ht H1 k Hk). discriminate.
+Qed.
+Print Assumptions C04_complete_run_then_rerun_noop.
+
+(* Forced re-run, NP2.4: from ANY directory (reachable or not: stale, partial
+   or missing output) in which the given original exists, a fault-free run
+   with overwrite=True and at least one window returns 1 and ends with, for
+   every shank: the folder, both metadata files, and the ap and lf data
+   complete — as .cbin + .ch with no .bin / .cbin_tmp left when compress is
+   set, as .bin otherwise; check_completed equals post_check; the original is
+   removed exactly when post_check and delete_original are both set and is
+   otherwise untouched. *)
+Theorem C04_forced_rerun_completes_np24 : forall n w' fs t o,
+  (t = TBin \/ t = TCbin) -> input_state NP24 n fs t = Present ->
+  let out := run_once NP24 n (S w') fs (mkRun t o true None None) in
+  let tf := target_form t in
+  out_outcome out = Status 1 /\ out_checked out = o_post o /\
+  (forall k, (k < n)%nat ->
+     out_fs out (PDir k) = Complete /\
+     out_fs out (PFile (Shank k Ap) FMeta) = Complete /\ out_fs out (PFile (Shank k Lf) FMeta) = Complete /\
+     out_ok (o_comp o) (out_fs out) (Shank k Ap) /\ out_ok (o_comp o) (out_fs out) (Shank k Lf)) /\
+  out_fs out (PFile Orig tf) = (if o_post o && o_del o then Absent else fs (PFile Orig tf)) /\
+  forall f, f <> tf -> out_fs out (PFile Orig f) = fs (PFile Orig f).
+Proof. exact forced24. Qed.
+Print Assumptions C04_forced_rerun_completes_np24.
+
+(* Forced re-run, NP2.1: same, for the lf file next to the original; with
+   compress set and a plain .bin given, the original ends as .cbin + .ch with
+   the .bin removed; otherwise it is untouched. *)
+Theorem C04_forced_rerun_completes_np21 : forall n w' fs t o,
+  (t = TBin \/ t = TCbin) -> input_state NP21 n fs t = Present ->
+  let out := run_once NP21 n (S w') fs (mkRun t o true None None) in
+  out_outcome out = Status 1 /\
+  out_fs out (PFile Lf21 FMeta) = Complete /\ out_ok (o_comp o) (out_fs out) Lf21 /\
+  (if o_comp o && fkind_eqb (target_form t) FBin then out_ok true (out_fs out) Orig
+   else forall f, out_fs out (PFile Orig f) = fs (PFile Orig f)) /\
+  out_fs out (PFile Orig FMeta) = fs (PFile Orig FMeta).
+Proof. exact forced21. Qed.
+Print Assumptions C04_forced_rerun_completes_np21.
+
 (* F-C04-b (faithful to the code): after a first run interrupted inside
    _prepare_files_NP24, a run without overwrite reports "nothing done" (status
    0) and yet creates the missing shank folders with empty files. *)
@@ -119,10 +189,10 @@ Example C04_example_full_run :
   let o := run_once NP24 2 2 (init_fs false) (mkRun TBin (mkO true true true) false None None) in
   out_outcome o = Status 1 /\ out_checked o = true /\ out_fs o (PFile Orig FBin) = Absent /\
   out_fs o (PFile (Shank 1 Ap) FCbin) = Complete /\ out_fs o (PFile (Shank 1 Ap) FBin) = Absent /\
-  length (out_trace o) = 32%nat.
+  length (out_trace o) = 36%nat.
 Proof. vm_compute. repeat split. Qed.
 
 Example C04_example_crash_before_delete :
-  let o := run_once NP24 2 2 (init_fs false) (mkRun TBin (mkO true true true) false (Some 31%nat) None) in
+  let o := run_once NP24 2 2 (init_fs false) (mkRun TBin (mkO true true true) false (Some 35%nat) None) in
   out_outcome o = Raised ECrash /\ out_checked o = true /\ out_fs o (PFile Orig FBin) = Complete.
 Proof. vm_compute. repeat split. Qed.
